@@ -9,22 +9,15 @@ from .domutil import DOM
 
 CHILDREN_OK = {"push": "append", "retain": "order-preserving removal", "retain_mut": "order-preserving removal", "extend": "append many",
                "extend_from_slice": "append many", "reserve": "capacity"}
-FIFO_FNS = {
-    DOM + "WeakDom::insert": "builder queue: children must be inserted in builder order",
-    DOM + "WeakDom::insert::insert": "builder queue producer",
-    DOM + "WeakDom::clone_within": "clone queue: child order of the copy",
-    DOM + "WeakDom::clone_into_external": "clone queue: child order of the copy",
-    DOM + "WeakDom::clone_multiple_into_external": "clone queue: child order of the copy",
-    DOM + "CloneContext::clone_ref_as_builder": "clone queue producer",
-    "<rbx_dom_weak::dom::WeakDomDescendants<'a> as core::iter::traits::iterator::Iterator>::next": "BFS order of descendants()",
-}
 FIFO_OK = {"new", "with_capacity", "push_back", "pop_front", "extend", "default", "from", "len", "is_empty", "reserve", "iter"}
-UNORDERED_FNS = {DOM + "WeakDom::destroy": "removal order is unobservable", DOM + "WeakDom::transfer": "move order is unobservable (children lists are moved verbatim)"}
+# public operations whose work-list order is unobservable (every other public function using a VecDeque is FIFO-strict)
+UNORDERED_API = {DOM + "WeakDom::destroy": "removal order is unobservable", DOM + "WeakDom::transfer": "move order is unobservable (children lists are moved verbatim)"}
+VECDEQUE_RX = r"alloc::collections::vec_deque::VecDeque::<T, A>::\w+$|VecDeque<T, A> as core::iter::traits::collect::Extend"
 
 
 def rule_order(c, prog):
     R = "C10.order"
-    c.rule(R, "Instance.children is mutated only by order-preserving operations (push/retain/extend); work queues whose order is observable are strict FIFOs (push_back/extend + pop_front)")
+    c.rule(R, "Instance.children is mutated only by order-preserving operations (push/retain/extend); the work queues of every public function of rbx_dom_weak::dom (private helpers inlined) are strict FIFOs (push_back/extend + pop_front), except destroy / transfer whose processing order is unobservable")
     muts = U.all_mutations(prog, [U.F_CHILDREN])
     n = 0
     for fn, cls, m in muts[U.F_CHILDREN]:
@@ -41,78 +34,113 @@ def rule_order(c, prog):
             c.violation(R, f"children|{fn}|insert", f"{fn} calls children.insert(i, _): only appending keeps `last child of the new parent`; (insert at children.len() would be benign but cannot be shown here)", m["sp"], instance=inst)
         else:
             c.violation(R, f"children|{fn}|{meth}", f"{fn} calls `{meth}` on an instance's children list — not an order-preserving operation (allowed: {sorted(CHILDREN_OK)}): sibling order of untouched instances may change", m["sp"], instance=inst)
-    c.floor(R, n, 6, "children mutation sites")
+    c.floor(R, n, 2, "children mutation sites")
     nq = 0
-    for path, why in FIFO_FNS.items():
-        fn = prog.fn(path)
-        for i, cal, t in U.calls_in(fn, r"alloc::collections::vec_deque::VecDeque::<T, A>::\w+$|VecDeque<T, A> as core::iter::traits::collect::Extend"):
+    covered = set()
+    for path, fn in sorted(U.api_fns(prog).items()):
+        covered.add(path)
+        covered.update(fn.inlined)
+        if path in UNORDERED_API:
+            continue
+        for i, cal, t in U.calls_in(fn, VECDEQUE_RX):
             meth = "extend" if "Extend" in cal else cal.rsplit("::", 1)[-1]
             nq += 1
-            inst = f"queue|{path}|{meth}"
+            inst = f"queue|{U.short_api(path)}|{meth}"
             if meth in FIFO_OK:
                 c.ok(R, inst)
             else:
-                c.violation(R, f"queue|{path}|{meth}", f"{path} uses VecDeque::{meth} on a queue whose order is observable ({why}); only push_back/extend + pop_front keep FIFO order", t.get("sp", ""), instance=inst)
+                c.violation(R, f"queue|{path}|{meth}", f"{path} uses VecDeque::{meth} on a queue whose order is observable (child order of inserted / cloned instances, BFS order of descendants()); only push_back/extend + pop_front keep FIFO order", t.get("sp", ""), instance=inst)
     c.floor(R, nq, 8, "FIFO queue operations")
-    # any other function of the crate using a VecDeque must be classified
+    # a private function of the crate that uses a VecDeque and is reached from no public function escapes the rule
     for path, fn in sorted(prog.fns.items()):
-        if fn.crate != "rbx_dom_weak" or path in FIFO_FNS or path in UNORDERED_FNS or not fn.mir:
+        if fn.crate != "rbx_dom_weak" or not fn.mir or fn.dk == "Closure" or "::test" in path:
             continue
-        root = fn.d.get("root")
-        if root in FIFO_FNS or root in UNORDERED_FNS:
+        if path in covered or (fn.d.get("root") or path) in covered:
             continue
         if U.calls_in(fn, r"VecDeque::<T, A>::(pop_front|pop_back|push_front|push_back)$"):
-            c.violation(R, f"queue|{path}|unclassified", f"{path} uses a VecDeque work queue that is not classified as FIFO-observable or unordered", fn.sp)
+            c.violation(R, f"queue|{path}|unclassified", f"{path} uses a VecDeque work queue but is not reached from a public function of rbx_dom_weak::dom: its queue discipline is unchecked", fn.sp)
 
 
 def rule_frame(c, prog):
     R = "C10.frame"
-    c.rule(R, "no function of rbx_dom_weak::dom writes name / class / properties of an instance except the confirmed sites (UniqueId regeneration on collision, Ref rewriting on clones); Instance values are built from all five builder fields")
-    allowed = {
-        (U.F_PROPS, DOM + "WeakDom::inner_insert", "structural:insert"): "replaces the UniqueId property on collision (C12)",
-        (U.F_PROPS, DOM + "CloneContext::rewrite_refs", "element:values_mut"): "rewrites Ref values of cloned instances (C11)",
-    }
+    c.rule(R, "inside rbx_dom_weak nothing writes name / class of an instance; properties are written only by inserting the literal key `UniqueId` (collision repair, C12) and by assigning Variant::Ref values through values_mut (Ref rewriting on clones, C11); the one struct-literal Instance is built from all five builder fields; insert returns the root builder's referent")
     muts = U.all_mutations(prog, [U.F_PROPS, U.F_NAME, U.F_CLASS])
+    seen = set()
     for field, sites in sorted(muts.items()):
         for fn, cls, m in sites:
-            if not fn.startswith("rbx_dom_weak::"):
+            if not fn.startswith("rbx_dom_weak::") and not fn.startswith("<rbx_dom_weak::"):
                 continue     # clients own these public fields (documented); C12 checks the readers
             inst = f"{field}|{fn}|{cls}"
-            if (field, fn, cls) in allowed:
+            f = prog.fns.get(fn)
+            ok = False
+            if field == U.F_PROPS and cls == "structural:insert" and f is not None and f.body is not None:
+                # every properties.insert in this function has the literal key "UniqueId"
+                ins = [x for x in core.walk_fn(f) if x.get("k") == "MethodCall" and x["m"] == "insert" and "properties" in core.place_root(x["recv"])[1]]
+                ok = bool(ins) and all([l["lit"].get("v") for l in core.walk(x["args"][0]) if l.get("k") == "Lit"] == ["UniqueId"] for x in ins)
+            elif field == U.F_PROPS and cls == "element:values_mut" and f is not None and f.body is not None:
+                # values reached through values_mut are only ever assigned Variant::Ref(..)
+                asg = [x for x in core.walk_fn(f) if x.get("k") == "Assign"]
+                ok = bool(asg) and all(core.strip(x["r"]).get("k") == "Call" and core.strip(x["r"])["f"].get("def") == "rbx_types::variant::Variant::Ref" for x in asg)
+            if ok:
+                seen.add((field, cls))
                 c.ok(R, inst)
             else:
-                c.violation(R, f"{field}|{fn}|{cls}", f"{fn} mutates {field} ({cls}); operations must leave name/class/properties of every instance untouched", m["sp"], instance=inst)
-    for key in allowed:
-        field, fn, cls = key
-        if not any(f == fn and cl == cls for f, cl, _ in muts[field]):
-            c.violation(R, f"anchor|{field}|{fn}|{cls}", f"confirmed site disappeared: {fn} {cls} on {field}", "")
-    # builder field coverage in insert::insert
-    fn = prog.fn(DOM + "WeakDom::insert::insert")
-    lit = [n for n in core.walk_fn(fn) if n.get("k") == "Struct" and n.get("def") == U.INST]
-    if len(lit) != 1:
-        raise core.AnchorMissing("insert::insert: Instance struct literal not found")
+                c.violation(R, f"{field}|{fn}|{cls}", f"{fn} mutates {field} ({cls}); operations must leave name/class/properties of every instance untouched (allowed: inserting the key `UniqueId`, assigning Variant::Ref through values_mut)", m["sp"], instance=inst)
+    for key in ((U.F_PROPS, "structural:insert"), (U.F_PROPS, "element:values_mut")):
+        if key not in seen:
+            c.violation(R, f"anchor|{key[0]}|{key[1]}", f"confirmed site disappeared: no {key[1]} on {key[0]} inside rbx_dom_weak (collision repair / Ref rewriting gone)", "")
+    # builder field coverage: the single struct-literal Instance of the module
+    lits = []
+    for path, fn in sorted(prog.fns.items()):
+        if fn.crate == "rbx_dom_weak" and fn.body is not None and fn.dk != "Closure" and "::test" not in path and (path.startswith(DOM)):
+            for n in core.walk_fn(fn):
+                if n.get("k") == "Struct" and n.get("def") == U.INST:
+                    lits.append((fn, n))
+    if len(lits) != 1:
+        raise core.AnchorMissing(f"rbx_dom_weak::dom: expected exactly one struct-literal Instance, found {len(lits)}")
+    fn, lit = lits[0]
     src = {}
-    for f in lit[0]["fields"]:
+    for f in lit["fields"]:
         root, path = core.place_root(f["e"])
         src[f["f"]] = (root, tuple(p for p in path if not p.startswith(".")))
-    want = {"referent": ("builder", ("referent",)), "name": ("builder", ("name",)), "class": ("builder", ("class",)), "properties": ("builder", ("properties",)), "parent": ("parent", ())}
+    broot = src.get("referent", (None,))[0]
+    want = {"referent": (broot, ("referent",)), "name": (broot, ("name",)), "class": (broot, ("class",)), "properties": (broot, ("properties",))}
+    btype = None
+    for prm in fn.params:
+        if prm.get("name") == broot:
+            btype = prm.get("ty")
+    if broot is None or "InstanceBuilder" not in (btype or ""):
+        c.violation(R, "build|source", f"the struct-literal Instance is not built from an InstanceBuilder parameter (referent comes from {src.get('referent')})", core.loc(lit), instance="build:source")
+    else:
+        c.ok(R, "build:source")
     for k, v in want.items():
         inst = f"build:{k}"
         if src.get(k) == v:
             c.ok(R, inst)
         else:
-            c.violation(R, f"build|{k}", f"insert builds Instance.{k} from {src.get(k)}, expected {v}", core.loc(lit[0]), instance=inst)
+            c.violation(R, f"build|{k}", f"insert builds Instance.{k} from {src.get(k)}, expected {v}", core.loc(lit), instance=inst)
+    # parent: a Ref parameter of the same function (not a field of the builder)
+    proot = src.get("parent", (None, ()))
+    ptype = next((prm.get("ty") for prm in fn.params if prm.get("name") == proot[0]), "")
+    if proot[1] == () and "referent::Ref" in (ptype or ""):
+        c.ok(R, "build:parent")
+    else:
+        c.violation(R, "build|parent", f"insert builds Instance.parent from {proot}, expected the parent Ref parameter", core.loc(lit), instance="build:parent")
     # children enqueued from builder.children with the new instance as parent
-    pb = [n for n in core.walk_fn(fn) if n.get("k") == "MethodCall" and n["m"] in ("push_back", "push_front")]
+    pb = [n for n in core.walk_fn(fn) if n.get("k") == "MethodCall" and n["m"] in ("push_back", "push_front", "extend")]
     okq = False
     for n in pb:
-        a = core.strip(n["args"][0]) if n["args"] else {}
-        if a.get("k") == "Tup" and len(a["args"]) == 2:
-            r0 = core.place_root(a["args"][0])
-            r1 = core.place_root(a["args"][1])
-            if r0 == ("builder", ["referent"]) and r1[0] == "child":
-                okq = True
-    if okq:
+        for a in core.walk(n["args"][0]) if n["args"] else []:
+            a = core.strip(a)
+            if a.get("k") == "Tup" and len(a["args"]) == 2:
+                r0 = core.place_root(a["args"][0])
+                r1 = core.place_root(a["args"][1])
+                if r0 == (broot, ["referent"]) and r1[0] is not None and r1[0] != broot:
+                    okq = True
+    # the pushed children must come from a loop / iterator over builder.children
+    src_ok = any(core.as_for(n) is not None and core.place_root(core.as_for(n)[1])[0] == broot and "children" in core.place_root(core.as_for(n)[1])[1] for n in core.walk_fn(fn)) or \
+        any(n.get("k") == "MethodCall" and n["m"] == "extend" and broot == core.place_root(n["args"][0])[0] and "children" in core.place_root(n["args"][0])[1] for n in core.walk_fn(fn) if n.get("args"))
+    if okq and src_ok:
         c.ok(R, "build:children-enqueued")
     else:
         c.violation(R, "build|children", "insert does not enqueue (builder.referent, child) for each builder child", fn.sp, instance="build:children-enqueued")
@@ -120,10 +148,12 @@ def rule_frame(c, prog):
     ins = prog.fn(DOM + "WeakDom::insert")
     tail = core.strip(ins.body["b"].get("expr", {}))
     ok = False
+    bparams = [prm.get("name") for prm in ins.params if "InstanceBuilder" in (prm.get("ty") or "")]
     if tail.get("res") == "local":
-        for st in ins.body["b"]["stmts"]:
-            if st["k"] == "Let" and st["pat"].get("lid") == tail["lid"]:
-                if core.place_root(st["init"]) == ("root_builder", ["referent"]):
+        for st in core.walk_lets(ins.body):
+            if st["pat"].get("lid") == tail["lid"] and "init" in st:
+                r = core.place_root(st["init"])
+                if r[0] in bparams and r[1] == ["referent"]:
                     ok = True
     if ok:
         c.ok(R, "insert:returns-root-referent")
@@ -131,37 +161,64 @@ def rule_frame(c, prog):
         c.violation(R, "insert|return", "insert does not return root_builder.referent", ins.sp, instance="insert:returns-root-referent")
 
 
+def hashmap_owner_param(fn, t):
+    """MIR local index of the API parameter whose `instances` map a HashMap call operates on"""
+    r = U.local_root(fn, t["args"][0], depth=16) if t.get("args") else None
+    if r is None:
+        return None
+    l, proj = r
+    return l if U.F_INSTANCES in proj else None
+
+
 def rule_conserve(c, prog):
     R = "C10.conserve"
-    c.rule(R, "in transfer every inner_remove is followed, on every path to the normal return, by an inner_insert on the destination (conservation of the combined instance set)")
-    fn = prog.fn(DOM + "WeakDom::transfer")
+    c.rule(R, "in transfer (private helpers inlined) every removal from the source's instance map is followed, on every path to the normal return, by an insertion into the destination's map under the same key (conservation of the combined instance set)")
+    fn = U.api_fns(prog)[DOM + "WeakDom::transfer"]
     cfg = D.CFG(fn)
-    rem = U.calls_in(fn, r"WeakDom::inner_remove$")
-    ins = {i for i, cal, t in U.calls_in(fn, r"WeakDom::inner_insert$")}
-    c.floor(R, len(rem), 2, "inner_remove sites in transfer")
-    for i, cal, t in rem:
-        inst = f"conserve:bb{len([x for x in rem if x[0] <= i])}"
+    rem = sorted(U.mutation_blocks(fn, U.F_INSTANCES, r"::remove$"))
+    ins = sorted(U.mutation_blocks(fn, U.F_INSTANCES, r"::insert$"))
+    c.floor(R, len(rem), 2, "instance-map removals in transfer")
+    argc = fn.mir.get("argc") or 0
+    params = {i: fn.mir["locals"][i] for i in range(1, argc + 1)}
+    wd = [i for i, ty in params.items() if "WeakDom" in ty]
+    if len(wd) != 2:
+        raise core.AnchorMissing(f"transfer: expected two WeakDom parameters, found {params}")
+    self_p, dest_p = wd[0], wd[1]
+    for k, b in enumerate(rem):
+        t = cfg.blocks[b]["term"]
+        inst = f"conserve:remove{k + 1}"
+        owner = hashmap_owner_param(fn, t)
+        if owner != self_p:
+            c.violation(R, f"recv|remove|{owner}", f"transfer removes from the instance map of parameter #{owner}, expected the source (`self`)", t.get("sp", ""), instance=inst)
+            continue
+        good_ins = {i for i in ins if hashmap_owner_param(fn, cfg.blocks[i]["term"]) == dest_p}
         starts = t.get("targets", [])
-        if ins and all(cfg.must_pass(s, ins, cfg.returns) for s in starts):
+        if good_ins and all(cfg.must_pass(s, good_ins, cfg.returns) for s in starts):
             c.ok(R, inst)
         else:
             c.violation(R, f"conserve|{inst}", "transfer: an instance removed from the source is not re-inserted into the destination on some path (instance lost)", t.get("sp", ""), instance=inst)
-    # inner_insert receiver must be `dest`, inner_remove receiver `self`
-    for n in core.walk_fn(fn):
-        if n.get("k") == "MethodCall" and n["m"] in ("inner_insert", "inner_remove"):
-            root = core.place_root(n["recv"])[0]
-            want = "dest" if n["m"] == "inner_insert" else "self"
-            inst = f"recv:{n['m']}"
-            if root == want:
-                c.ok(R, inst)
+    for i in ins:
+        t = cfg.blocks[i]["term"]
+        owner = hashmap_owner_param(fn, t)
+        inst = "recv:insert"
+        if owner == dest_p:
+            c.ok(R, inst)
+        else:
+            c.violation(R, f"recv|insert|{owner}", f"transfer inserts into the instance map of parameter #{owner}, expected the destination", t.get("sp", ""), instance=inst)
+    # same key: at HIR level every inner_insert-like call in transfer passes the key that was removed
+    hfn = prog.fn(DOM + "WeakDom::transfer")
+    for n in core.walk_fn(hfn):
+        if n.get("k") == "MethodCall" and n["m"] in ("inner_insert",):
+            k = core.place_root(n["args"][0])[0] if n["args"] else None
+            # the removed key in the same scope
+            rk = None
+            for m in core.walk_fn(hfn):
+                if m.get("k") == "MethodCall" and m["m"] == "inner_remove" and m["args"]:
+                    rk = core.place_root(m["args"][0])[0]
+            if k is not None and k == rk:
+                c.ok(R, "key:inner_insert")
             else:
-                c.violation(R, f"recv|{n['m']}|{root}", f"transfer calls {n['m']} on `{root}`, expected `{want}`", core.loc(n), instance=inst)
-            if n["m"] == "inner_insert":
-                k = core.place_root(n["args"][0])[0] if n["args"] else None
-                if k == "referent":
-                    c.ok(R, "key:inner_insert")
-                else:
-                    c.violation(R, f"key|inner_insert|{k}", f"transfer re-inserts under key `{k}`, expected the same `referent` that was removed", core.loc(n), instance="key:inner_insert")
+                c.violation(R, f"key|inner_insert|{k}", f"transfer re-inserts under key `{k}`, expected the same referent that was removed (`{rk}`)", core.loc(n), instance="key:inner_insert")
 
 
 def run(c, prog):
